@@ -119,6 +119,9 @@ LTO_SETS = {
     'equal-ff': dict(ff=[0.2, 0.2, 0.9, 1.2], nox=[4.0, 9.0, 18.0, 24.0], hc=[1.5, 0.1, 0.05, 0.03], co=[30.0, 3.0, 0.5, 0.3]),
     'equal-ei': dict(ff=[0.1, 0.3, 0.9, 1.2], nox=[10.0, 10.0, 10.0, 10.0], hc=[1.0, 1.0, 1.0, 1.0], co=[5.0, 5.0, 5.0, 5.0]),
     'zero-hc-co-high': dict(ff=[0.1, 0.3, 0.9, 1.2], nox=[4.0, 9.0, 18.0, 24.0], hc=[1.5, 0.1, 0.0, 0.0], co=[30.0, 3.0, 0.0, 0.0]),
+    # the same numbers as 'increasing' held in MUTABLE containers (results of arithmetic on LTO values are
+    # mutable): anything that edits LTO data in place instead of copying shows up as input mutation
+    'increasing-mutable': dict(ff=[0.1, 0.3, 0.9, 1.2], nox=[4.0, 9.0, 18.0, 24.0], hc=[1.5, 0.1, 0.05, 0.03], co=[30.0, 3.0, 0.5, 0.3], mutable=True),
 }
 LTO_NAMES = list(LTO_SETS)
 APU_NAMES = ['real', 'none', 'unknown', 'gtcp30-54']
